@@ -338,6 +338,7 @@ package datalog
 //@ loop 0 invariant elems: forall j int :: 0 <= j && j < len(*s) ==> termWF((*s)[j])
 //@ loop 0 invariant owns: fresh(arr(*s))
 //@ loop 0 invariant tableGrown(*symbols, old(*symbols))
+//@ loop 0 invariant prefix: forall j int :: { (*symbols)[j] } 0 <= j && j < old(len(*symbols)) ==> (*symbols)[j] == old((*symbols)[j])
 //@ loop 0 invariant #i == 0 ==> len(*s) == 0
 //@ loop 0 invariant #i >= 1 ==> (*e)[0] is Value
 //@ loop 0 invariant #i == 1 && (*e)[0] is Value && !((*e)[0].(Value).ID is Variable) ==> len(*s) == 1 && (*s)[0] == (*e)[0].(Value).ID
@@ -345,7 +346,8 @@ package datalog
 //@ ensures empty: len(*e) == 0 ==> err != nil && res == nil
 //@ ensures single_value: len(*e) == 1 && (*e)[0] is Value && !((*e)[0].(Value).ID is Variable) ==> err == nil && res == (*e)[0].(Value).ID
 //@ ensures single_operator: len(*e) == 1 && !((*e)[0] is Value) ==> err != nil && res == nil
-//@ ensures table: tableGrown(*symbols, old(*symbols)) && (forall j int :: { (*symbols)[j] } 0 <= j && j < old(len(*symbols)) ==> (*symbols)[j] == old((*symbols)[j]))
+//@ ensures table: tableGrown(*symbols, old(*symbols))
+//@ ensures prefix: forall j int :: { (*symbols)[j] } 0 <= j && j < old(len(*symbols)) ==> (*symbols)[j] == old((*symbols)[j])
 
 // ---------------------------------------------------------------------------
 // terms, predicates, fact sets (C05 leaves)
